@@ -49,6 +49,26 @@ def run(ctx, replay):
     vcore.validate_all(ctx, "ReplicationTrace", "ReplicationTrace.cfg", ctx.accepted_path, describe=describe, dfs=False,
                        max_rejections=nt + 8)
 
+    # leg R -- behaviours chosen by TLC from the model (ReplicationGen: fault placements are the model's, not the
+    # driver's random generator's) are executed step by step against the real code; the recorded projections are
+    # validated like every other trace, i.e. the real state must be the state the model predicts after every step
+    ng, ngt, depth = (1500, 800, 60) if thorough else (250, 150, 45)
+    gen = ctx.generate_behaviours("ReplicationGen", "ReplicationGen.cfg", ng, depth) + \
+        ctx.generate_behaviours("ReplicationGen", "ReplicationGen_tail.cfg", ngt, depth, seed_shift=1)
+    gpath = os.path.join(ctx.scratch, "repl-gen.json")
+    with open(gpath, "w") as f:
+        json.dump(gen, f)
+    trg = os.path.join(ctx.scratch, "repl-gen.ndjson")
+    summ, rc, _ = ctx.run_vdrive(["repl", "--scripts", gpath, "--out", trg, "--scratch", scr], timeout=3000)
+    for u in summ["unresolved"]:
+        raise vcore.Unresolved("repl driver (generated behaviours): %s" % u)
+    ctx.extra["generated_behaviours_replayed"] = len(gen)
+    ctx.extra["events_generated_behaviours"] = summ["events"]
+    vcore.validate_all(ctx, "ReplicationTrace", "ReplicationTrace_conf.cfg", trg, describe=describe, dfs=False,
+                       max_rejections=ngt + 8)
+    vcore.validate_all(ctx, "ReplicationTrace", "ReplicationTrace.cfg", ctx.accepted_path, describe=describe, dfs=False,
+                       max_rejections=ngt + 8)
+
     def wrong_follower_byte(lines):
         for i, ln in enumerate(lines):
             if '"ev":"Proj"' in ln and '"flive":[' in ln and '"flive":[]' not in ln:
